@@ -1,4 +1,5 @@
 import UgoVerif.VM.Types
+import UgoVerif.Gen.Unary
 /-
   VM model — primitive accessors (every Go index expression is a panic site),
   heap, stringification, value-level operations (IsFalsy, Equal, BinaryOp,
@@ -293,6 +294,27 @@ def vBinaryOp (F : FloatOps) (tok : Tok) (l r : V) : M (Except OpErr V) := do
       | .err e => pure (.error (opErrOfErr e))
       | .panic m => panic m
     | _, _ => panic "runtime error: invalid memory address or nil pointer dereference"
+
+/-- vm.go xOpUnary through the regenerated `Gen.xOpUnary` -/
+def vUnary (F : FloatOps) (tok : Tok) (right : V) : M (Except OpErr V) := do
+  match right with
+  | .nil => panic "runtime error: invalid memory address or nil pointer dereference"
+  | _ => pure ()
+  let falsy ← (if tok == .Not then isFalsy right else pure false)
+  match toValShallow right with
+  | none => panic "runtime error: invalid memory address or nil pointer dereference"
+  | some rv =>
+    match Gen.xOpUnary F (fun _ => falsy) tok rv with
+    | .ok v =>
+      -- unary + returns its operand unchanged
+      match v, rv with
+      | .array _, _ | .map _, _ | .opaque _ _, _ => pure (.ok right)
+      | v, _ =>
+        match ofScalarVal v with
+        | some v' => pure (.ok v')
+        | none => unsupported "unary result kind"
+    | .err e => pure (.error (opErrOfErr e))
+    | .panic m => panic m
 
 /-- index conversion used by Array/String/Bytes IndexGet: `int(v)` of an Int/Uint -/
 def idxOf (i : V) : Option Int :=
